@@ -6,7 +6,7 @@ from .c07 import NOT_COMPILE
 
 PROF = projgen.profile(n_mods=(3, 8), p_dep=0.75, p_custom_build=0.3, p_download=0.25, p_build_dep=0.3, p_global_build_dep=0.15,
                        p_tasks=0.03, p_provides=0.25, p_varopts=0.05, p_optsrc=0.15, p_srcdir=0.05, p_cycle=0.0)
-OBS = ("status", "decision", "modules", "ninja")
+OBS = ("status", "decision", "modules", "loaded", "ninja")
 
 
 def oracle(chk, p, r, m):
